@@ -238,12 +238,18 @@ def random_edit(r, nb, newfams=(7, 8, 21, 22)):
         j = r.randrange(n)
         cells.insert(j, cells.pop(i))
         label = ("Move", i, j)
-    elif k < 0.40:
+    elif k < 0.38:
         i = r.randrange(n)
         c = copy.deepcopy(cells[i])
         c["cid"] = fresh
         cells.insert(i + 1, c)
         label = ("Duplicate", i)
+    elif k < 0.40:
+        i = r.randrange(n)
+        cells[i]["cid"] = fresh + r.randint(0, 3) * 7      # both sides may re-id the same cell differently
+        if cells[i]["cid"] in used:
+            cells[i]["cid"] = fresh
+        label = ("ReId", i, cells[i]["cid"])
     elif k < 0.60:
         i = r.randrange(n)
         cells[i]["src"] = r.choice([v for v in (0, 1, 1, 2, 2, 3, 4) if v != cells[i]["src"]])
